@@ -88,7 +88,7 @@ fn verif_native_vector_identity_witness() {
     std::panic::set_hook(Box::new(|_| {}));
     let mut n = 0;
     let mut bad: Vec<String> = Vec::new();
-    let cases: [(&str, &str); 17] = [
+    let cases: [(&str, &str); 22] = [
         // aliases through variables, arguments, elements of vectors and lists
         ("(define v (vector 1 2 3)) (define w v) (vector-set! w 0 9) (vector-ref v 0)", "value 9"),
         ("(define v (vector 1 2 3)) (define (poke x) (vector-set! x 1 8)) (poke v) (vector-ref v 1)", "value 8"),
@@ -111,6 +111,12 @@ fn verif_native_vector_identity_witness() {
         // literal vectors reject mutation, also when reached through a constructed vector
         ("(define v (make-vector 1 #(1 2))) (vector-set! (vector-ref v 0) 0 9)", "RequiresMutable"),
         ("(define v #(1 2 3)) (vector-set! v 0 9)", "RequiresMutable"),
+        // ... quoted, nested in a literal vector or a literal list, and still after the failed attempt
+        ("(define v '#(1 2 3)) (vector-set! v 2 9)", "RequiresMutable"),
+        ("(define v '#(#(1) 2)) (vector-set! (vector-ref v 0) 0 9)", "RequiresMutable"),
+        ("(define l '(1 #(2 3))) (vector-set! (car (cdr l)) 0 9)", "RequiresMutable"),
+        ("(define l '(#(1) . #(2))) (vector-set! (cdr l) 0 9)", "RequiresMutable"),
+        ("(define v '#(1 #(2))) (vector-ref (vector-ref v 1) 0)", "value 2"),
     ];
     for (program, want) in cases.iter() {
         n += 1;
